@@ -289,7 +289,7 @@ def cases(rng, tier):
         for cut in range(0, 12):
             out.append(mk("n", "11", "GET", 200, "cl:12", 12, ["d12"], str(cut), "fin", "-", (), "-", 0))
     for _ in range(700 if thorough else 70):
-        out.append(valid_case(rng, tier, sizes))
+        out.append(valid_case(rng, tier, SIZES_Q + ([131072, 262144 + 1] if thorough else [])))
     for _ in range(150 if thorough else 22):
         out.append(truncated_case(rng, rng.chance(2, 3)))
     for _ in range(80 if thorough else 12):
